@@ -1036,6 +1036,10 @@ class Formatter:
                 if value is not None:
                     setattr(config, f.name, value)
 
+            if config.tab_width is not None and config.tab_width < 1:
+                raise MesonException(
+                    f'Error parsing "{str(configuration_file)}", option "tab_width", error: "tab width must be at least 1"')
+
             if config.use_editor_config:
                 self.use_editor_config = True
 
